@@ -22,8 +22,7 @@ GROUP = {
             (scale >= old(self).value.dscale() && scale <= 28) ==> final(self).value.val() == old(self).value.val() && final(self).value.dscale() == scale,   // @PrettyDecimal.rescale.raising_keeps_value
 """),
         U("display::rescale", D, [r"fn rescale\b"], fn="rescale",
-          rewrites=[RET(), ("R9-stub-lookup", "re:(?s)context\\s*\\.precisions\\s*\\.get\\(x\\.commodity\\.as_ref\\(\\)\\)\\s*\\.cloned\\(\\)", "context.precisions.get_precision(x.commodity.as_str())", 1),
-                    ("R1-path", "std::cmp::max", "core::cmp::max", 1)],
+          rewrites=[RET(), ("R9-stub-lookup", "re:(?s)context\\s*\\.precisions\\s*\\.get\\(x\\.commodity\\.as_ref\\(\\)\\)\\s*\\.cloned\\(\\)", "context.precisions.get_precision(x.commodity.as_str())", 1)],
           contract="""
         ensures
             // C07/C15: numeric values are printed without change of value, only padded to the configured precision
